@@ -269,6 +269,17 @@ def gen_cases(ctx, scale=1.0):
             c["throttle"] = {k: (limit if k == key else None) for k in ("srv_read", "srv_write", "cli_read", "cli_write", "user_read_pc", "user_write_pc")}
             c["ops"].append({"op": "down", "offset": 0, "read": 100000, "api": "readall"})
             cases.append(c)
+    # a backend whose read() returns fewer bytes than asked for while data remains (short reads are legal: pipes,
+    # network file systems, a custom path_io_factory): every byte is still delivered, once
+    for backend in ("memory", "pathio"):
+        for bs, cap in ((64, 1), (64, 63), (8192, 1000), (7, 3)):
+            for n in (cap - 1, cap, cap + 1, bs, bs + 1, 3 * bs + cap + 1):
+                c = det_case(rng, bs, 0)
+                c["backend"] = backend
+                c["initial"] = gen_content(rng, max(n, 0), "ramp").hex()
+                c["read_cap"] = cap
+                c["ops"] = [{"op": "down", "offset": 0, "read": 8192, "api": "iter"}, {"op": "down", "offset": min(2, max(n, 0)), "read": 5, "api": "readall"}]
+                cases.append(c)
     # a second session looks at the file (MLST) in the middle of the transfer
     for backend in ("memory", "pathio"):
         for bs in (2, 7, 64):
@@ -462,6 +473,7 @@ async def _run_case(loop, case):
         await b.login()
         world.spy.enabled = True
         world.spy.delay = case["spy_delay"]
+        world.spy.read_cap = case.get("read_cap")
         path = "/" + "/".join(fp)
         closed_data = set()
         for i, op in enumerate(case["ops"]):
@@ -737,6 +749,11 @@ def oracle(case, obs):
             if post != pre:
                 fail(i, "C01:download-changed-the-file", "file changed by RETR")
                 continue
+            if case.get("read_cap"):
+                # the backend hands out short blocks: they are passed on as they come, none larger than a block
+                if any(r != bs for r in o["reads"]) or any(x < 1 or x > bs for x in o["blocks"]) or sum(o["blocks"]) != len(want):
+                    fail(i, "C01:block-size-not-honoured", "RETR of %d bytes with block_size %d from a backend with short reads: read requests %r, blocks sent %r" % (len(want), bs, o["reads"][:6], o["blocks"][:12]))
+                continue
             if o["blocks"] != full_blocks(len(want), bs) or any(r != bs for r in o["reads"]):
                 fail(i, "C01:block-size-not-honoured", "RETR of %d bytes with block_size %d: read requests %r, blocks sent %r" % (len(want), bs, o["reads"][:6], o["blocks"][:12]))
                 continue
@@ -873,7 +890,7 @@ def _run(ctx, cases, compare=True, stop_after_failures=None):
             res.count("status=" + o["status"])
             if not trivial(case, op, o):
                 res.distinct.add(distinct_key(case, op, o))
-        if compare:
+        if compare and not case.get("read_cap"):  # the model's backend returns whole blocks; short reads are judged by the oracle alone
             for line, kind, i in model_lines(case, obs):
                 pending.append((line, kind, case, i, obs[i]))
         if len(res.samples) < 6 and res.cases % 37 == 1:
